@@ -1077,6 +1077,31 @@ theorem C08_region_equal_coordinates (t : TagDesc) (nrefs refidx : Nat) (ref : A
   · exact windowsExact_equal_coords stop _ _ _ _ _ _ hex d dim w hd hw hlt i j hi hj hc
   · rw [hvalid] at hf; cases hf
 
+/-- **Equal coordinates are taken together (MultiTag, tagged features).** The valid result of
+`MultiTag.tagged_data` for any position index, and the data of a `tagged` feature of a Tag, never hold a part of a
+run of samples with the same coordinate -- on every axis with a position entry, under either stop rule. -/
+theorem C08_runs_taken_whole :
+    (∀ (t : MTagDesc) (nrefs idx refidx : Nat) (ref : Arr) (stop : SliceMode) (position extent scs : List Rat),
+      MRow t idx position extent → ref.dims.length = ref.shape.length →
+      AxesOK stop ref.dims position extent (unitsOpt t.units) scs → refidx < nrefs →
+      ∀ v, MultiTag.taggedData t nrefs idx refidx ref stop = .ok v → v.valid = true →
+        RunsWhole ref.dims v.window position.length) ∧
+    (∀ (t : TagDesc) (nfeats : Nat) (data : Arr) (stop : SliceMode) (scs : List Rat), 0 < nfeats →
+      data.dims.length = data.shape.length →
+      AxesOK stop data.dims t.position t.extent (unitsOpt t.units) scs →
+      ∀ v, Tag.featureData t nfeats .tagged data stop = .ok v → RunsWhole data.dims v.window t.position.length) := by
+  constructor
+  · intro t nrefs idx refidx ref stop position extent scs hrow hrank hok href v hv hvalid
+    have h := C08_region_multi t nrefs idx refidx ref stop position extent scs hrow hrank hok href
+    rw [hv] at h
+    rcases h with ⟨_, _, _, hex, _⟩ | ⟨hf, _⟩
+    · exact windowsExact_equal_coords stop _ _ _ _ _ _ hex
+    · rw [hvalid] at hf; cases hf
+  · intro t nfeats data stop scs hf hrank hok v hv
+    have h := (C08_feature_tag t nfeats data stop scs hf).1 hrank hok
+    rw [hv] at h
+    exact windowsExact_equal_coords stop _ _ _ _ _ _ h.2.2.2
+
 /-- a run of three equal ticks: the point on it takes all three under either stop rule; a region ending on it takes
 the run under `Inclusive` and none of it under `Exclusive`; a region starting on it takes all of it (s -> ms) -/
 example : axisSlice .exclusive (.range [1, 2, 2, 2, 9 / 2, 6] none) 2 none none = .ok (some (1, 4)) ∧
@@ -1088,5 +1113,17 @@ example : axisSlice .exclusive (.range [1, 2, 2, 2, 9 / 2, 6] none) 2 none none 
     axisSlice .exclusive (.range [1000, 2000, 2000, 2000, 4500] (some "ms".toList)) 2 (some 1) (some "s".toList)
       = .ok (some (1, 4)) ∧
     axisSlice .exclusive (.range [1, 2, 2, 2, 9 / 2, 6] none) 3 none none = .ok none := by decide +kernel
+
+/-- two positions of a multi-tag on an axis with the run 2, 2, 2: the point on the run, and the region 1 .. 2 under
+both stop rules; a tagged feature of a Tag ending on the run -/
+example :
+    MultiTag.taggedData ⟨.oneD [2, 1], none, []⟩ 1 0 0 ⟨[6], [.range [1, 2, 2, 2, 9 / 2, 6] none]⟩ .exclusive
+      = .ok ⟨[6], true, [(1, 4)]⟩ ∧
+    MultiTag.taggedData ⟨.oneD [2, 1], some (.oneD [0, 1]), []⟩ 1 1 0 ⟨[6], [.range [1, 2, 2, 2, 9 / 2, 6] none]⟩
+      .inclusive = .ok ⟨[6], true, [(0, 4)]⟩ ∧
+    MultiTag.taggedData ⟨.oneD [2, 1], some (.oneD [0, 1]), []⟩ 1 1 0 ⟨[6], [.range [1, 2, 2, 2, 9 / 2, 6] none]⟩
+      .exclusive = .ok ⟨[6], true, [(0, 1)]⟩ ∧
+    Tag.featureData ⟨[1], [1], []⟩ 1 .tagged ⟨[6], [.range [1, 2, 2, 2, 9 / 2, 6] none]⟩ .inclusive
+      = .ok ⟨[6], true, [(0, 4)]⟩ := by decide +kernel
 
 end Nix.C08
